@@ -1,5 +1,5 @@
 \* as coded; one stream, the whole catalogue
-CONSTANTS Streams <- {1} Choices <- ChOne BadBatches <- MCBad InitHeight = 1 MaxHeight = 3
+CONSTANTS Streams = {1} Choices <- ChOne BadBatches <- MCBad InitHeight = 1 MaxHeight = 3
   InputCap = 2 OutCap = 1 MaxDup = 2 MaxExtra = 1 MaxGot = 2
   FixNilState = FALSE FixBlock = FALSE FixReFin = FALSE SeqWindow = 0 BufBound = 99 Mut = "none"
 INIT Init
